@@ -665,7 +665,7 @@ def rule_home(ctx):
 
         def posix(e, depth=3):
             if isinstance(e, ast.Call) and (dotted(e.func) or "").split(".")[-1] == "PurePosixPath":
-                return True
+                return len(e.args) == 1 and src(e.args[0]) == "home_path"    # built from the home_path argument, nothing else
             if isinstance(e, ast.Name) and depth > 0:
                 ds = local_defs(ui, e.id)
                 return bool(ds) and all(k == "assign" and posix(d_, depth - 1) for k, d_, _ in ds)
